@@ -316,7 +316,20 @@ pub fn run(args: &Args, report: &mut Report) {
                 let rejected = msg.contains("parallelism of the 2 blocks") || msg.contains("Cannot have an iteration block with limited parallelism");
                 let mut d = witness.clone();
                 d["error"] = json!(format!("job panicked: {msg}"));
-                if rejected || prop != "C01" {
+                // for the other properties a crash counts when the program uses the operators the
+                // property speaks about: those operators did not deliver what it promises
+                let mut ph: HashMap<String, u64> = HashMap::new();
+                op_histogram(&g.program, &mut ph);
+                let uses = |names: &[&str]| ph.keys().any(|k| names.iter().any(|n| k.starts_with(n)));
+                let relevant = match prop.as_str() {
+                    "C01" | "C05" | "C18" => true,
+                    "C07" => uses(&["Fold", "Reduce", "GroupBy", "RichMap", "MapState", "MapMemo", "Unique", "CountWindow"]),
+                    "C08" => uses(&["Join", "SplitJoin"]),
+                    "C09" => uses(&["Split", "Route", "Merge", "Zip", "Broadcast"]),
+                    "C16" => true,
+                    _ => false,
+                };
+                if rejected || !relevant {
                     report.count("jobs_panicked", 1);
                     report.case(Verdict::Inconclusive, None, || d);
                 } else {
